@@ -162,7 +162,9 @@ class Inst:
 
 
 class Model:
-    def __init__(self, shows, report, mode_priority=0):
+    def __init__(self, shows, report, mode_priority=0, default_sync_ms=0):
+        self.default_sync_ms = int(default_sync_ms or 0)     # machine-wide `mpf: default_show_sync_ms`
+        self.play_hint = None           # harness: {"sync_ms": explicit or None} of the play request being posted
         self.shows = {name: model_steps(s) for name, s in shows.items()}
         self.report = report            # report(clause, sig, **detail)
         self.inst = {}
@@ -171,7 +173,7 @@ class Model:
         self.obs_events = []            # [name, base, true]
         self.clauses = {"step_time": 0, "step_index": 0, "step_effects": 0, "no_step_after_stop": 0,
                         "start_time": 0, "completion": 0, "stop_explained": 0, "immediate_step": 0,
-                        "step_not_missed": 0, "light_start_time": 0}
+                        "step_not_missed": 0, "light_start_time": 0, "sync_effective": 0, "sync_zero_on_grid": 0}
         self.obs = {"steps_seen": 0, "instances": 0, "timer_steps": 0, "immediate_steps": 0, "loops_seen": 0,
                     "completions": 0, "fuzzy_instances": 0, "requests": 0, "max_loop_index": 0,
                     "silent_steps": 0, "sync_starts": 0, "coincident_ops": 0, "req_on_stopped": 0,
@@ -388,6 +390,24 @@ class Model:
         self.inst[ctx] = inst
         self.obs["instances"] += 1
         self.frames.append(("create", ctx))
+        # effective sync interval: the explicit sync_ms of the request if it has one (0 = start immediately),
+        # else the machine-wide default.  Child shows of the generated `shows:` steps never set one.
+        explicit = "unknown"
+        if parent is None and self.play_hint is not None:
+            explicit = self.play_hint.get("sync_ms")
+        elif parent is not None:
+            explicit = None
+        if explicit != "unknown":
+            eff = int(explicit) if explicit is not None else self.default_sync_ms
+            self.clauses["sync_effective"] += 1
+            if explicit == 0 and self.default_sync_ms:
+                self.clauses["sync_zero_on_grid"] += 1
+            if inst.sync_ms != eff:
+                observed = inst.sync_ms
+                inst.sync_ms = eff
+                self.V(inst, "sync_effective", "C17:show_sync_ms_not_honoured", attrib=None, t=base,
+                       requested_sync_ms=explicit, machine_default_sync_ms=self.default_sync_ms,
+                       show_config_sync_ms=observed, expected_effective=eff, start_time=start_time)
         n = inst.n
         if start_step > 0:
             inst.pos = start_step - 1
